@@ -333,6 +333,37 @@ def make_chains(stats):
     return test
 
 
+def make_large(stats):
+    """Inputs of 100-450 nodes BY CONSTRUCTION: a sum / product (or a two-level mix) of generated terms, extended until
+    it has at least 100 nodes."""
+    @given(st.data())
+    def test(data):
+        names = data.draw(S.name_lists(1, 3))
+        tag = data.draw(st.sampled_from(["Add", "Multiply"]))
+        other = "Multiply" if tag == "Add" else "Add"
+        terms = []
+        size = 1
+        while size < 100 and len(terms) < 120:
+            if data.draw(st.integers(0, 3)) == 0:
+                _, t = data.draw(RX.placed(names, depth=1))
+            else:
+                t = data.draw(S.trees(names, depth=data.draw(st.integers(1, 3))))
+            if data.draw(st.integers(0, 4)) == 0:
+                t = (other, (t, data.draw(S.trees(names, depth=1))))
+            terms.append(t)
+            size += M.size(t)
+        m = (tag, tuple(terms))
+        if data.draw(st.booleans()):
+            m = data.draw(st.sampled_from([("Negation", m), ("Reciprocal", m), ("NthPower", m, 2), ("Exponential", m, 2), ("Sine", m)]))
+        m = safe(m)
+        if M.size(m) > 450:
+            stats.count("too-large")
+            return
+        stats.count("size>=100" if M.size(m) >= 100 else "size<100")
+        invariant(stats, m, "random")
+    return test
+
+
 def make_partials(stats):
     @given(st.data())
     def test(data):
@@ -398,7 +429,7 @@ def make_reuse(stats):
 def parts(tier):
     n = 6000 if tier == "quick" else 100000
     return [run_part("skeletons", run_skeletons(tier)),
-            hyp_part("random", make_random, int(n * 0.45)),
+            hyp_part("random", make_random, int(n * 0.4)), hyp_part("large", make_large, int(n * 0.05)),
             hyp_part("chains", make_chains, int(n * 0.15)),
             hyp_part("partials", make_partials, int(n * 0.3)),
             hyp_part("reuse", make_reuse, int(n * 0.25))]
@@ -417,6 +448,6 @@ def self_test(tier, agg):
     for b in ("unary-parents", "chains", "ternary", "towers", "nary-mid-aligned", "binary-parents", "nary-mid"):
         if c.get("block:" + b, 0) < (500 if b == "towers" else 1000):
             bad.append(f"C11: skeleton block {b} enumerated too few terms")
-    if agg.get("random", {}).get("counters", {}).get("size>=100", 0) < 20:
+    if agg.get("random", {}).get("counters", {}).get("size>=100", 0) + agg.get("large", {}).get("counters", {}).get("size>=100", 0) < 20:
         bad.append("C11: fewer than 20 random inputs with >= 100 nodes")
     return bad
